@@ -85,7 +85,8 @@ fn main() {
         }
         Some("journal-all") => {
             let tier = args.get(2).cloned().unwrap_or_else(|| "quick".into());
-            let (found, stats) = journal::run(&tier, std::time::Instant::now() + std::time::Duration::from_secs(1500));
+            let rprops: Vec<Prop> = args.get(3).map(|s| s.split(',').filter_map(Prop::parse).collect()).unwrap_or_default();
+            let (found, stats) = journal::run_with(&tier, std::time::Instant::now() + std::time::Duration::from_secs(1500), &rprops, !rprops.is_empty());
             println!("journals={} prefixes={} restores={} torn={} prunes={} states={} capped={}", stats.journals, stats.prefixes, stats.restores, stats.torn_cuts, stats.prunes, stats.states, stats.capped);
             for m in stats.machinery.iter().take(5) { println!("MACHINERY {m}"); }
             for v in &found {
